@@ -87,6 +87,15 @@ def make(interp):
         x = theory_np.lift(x)
         return V(0 * num(x.t), x.axes)
 
+    def np_zeros(n, dtype=None, **kw):
+        only_kw("theory_seq.np_zeros", kw)
+        if dtype is not None and getattr(dtype, "__name__", str(dtype)) not in ("float", "py_float", "float64"):
+            raise Undecided(f"np.zeros(dtype={dtype!r})")
+        if not isinstance(n, theory_np.SeqLen):
+            raise Undecided("np.zeros(n) where n is not the length of an array of the program")
+        theory_np._use("numpy.zeros(len(x)): an array of zeros over the positions of x")
+        return V(z3.RealVal(0), (n.space,))
+
     def np_ones(n, **kw):
         only_kw("theory_seq.np_ones", kw)
         return OnesOf(n)
@@ -128,7 +137,7 @@ def make(interp):
         interp.ctx.__dict__.setdefault("_searchsorted", []).append(dict(k=k, a=a, v=vv, space=sp))
         return V(k, vv.axes, meta=("searchsorted", a, vv))
 
-    return {"divide": np_divide, "zeros_like": np_zeros_like, "ones": np_ones, "arange": np_arange, "searchsorted": np_searchsorted, "diff": np_diff, "all": lambda x, **k: (only_kw("np.all", k), theory_np.v_getattr(interp, x, "all")())[1], "any": lambda x, **k: (only_kw("np.any", k), theory_np.v_getattr(interp, x, "any")())[1]}
+    return {"divide": np_divide, "zeros_like": np_zeros_like, "zeros": np_zeros, "ones": np_ones, "arange": np_arange, "searchsorted": np_searchsorted, "diff": np_diff, "all": lambda x, **k: (only_kw("np.all", k), theory_np.v_getattr(interp, x, "all")())[1], "any": lambda x, **k: (only_kw("np.any", k), theory_np.v_getattr(interp, x, "any")())[1]}
 
 
 class OnesOf:
